@@ -75,7 +75,7 @@ func newEnv(kind string, queue int) *env {
 		e.mu.Unlock()
 		if e.pingFirst.Load() && (strings.HasPrefix(id, "nest:") || strings.HasPrefix(id, "plain")) {
 			// the handler's first blocking operation is a ping of the peer (no nested request has replaced the reader yet)
-			ctx, cancel := context.WithTimeout(context.Background(), 60*time.Second)
+			ctx, cancel := context.WithTimeout(context.Background(), 10*time.Second)
 			err := e.ping(ctx)
 			cancel()
 			if err != nil {
@@ -85,7 +85,7 @@ func newEnv(kind string, queue int) *env {
 			}
 		}
 		if op, _ := e.firstOp.Load().(string); op != "" && (strings.HasPrefix(id, "nest:") || strings.HasPrefix(id, "plain")) {
-			ctx, cancel := context.WithTimeout(context.Background(), 60*time.Second)
+			ctx, cancel := context.WithTimeout(context.Background(), 10*time.Second)
 			var err error
 			switch op {
 			case "observe":
@@ -102,7 +102,7 @@ func newEnv(kind string, queue int) *env {
 		}
 		if strings.HasPrefix(id, "nest:") {
 			// block in a nested request on the same connection
-			ctx, cancel := context.WithTimeout(context.Background(), 60*time.Second)
+			ctx, cancel := context.WithTimeout(context.Background(), 10*time.Second)
 			b, err := get(ctx, "/"+strings.ReplaceAll(id, ":", "/"))
 			cancel()
 			if err != nil || string(b) != "ok:"+id {
@@ -457,7 +457,7 @@ func nested(rec *vr.Rec, c ccase, rnd *rand.Rand) {
 		go func(g int) {
 			defer cwg.Done()
 			for i := 0; i < 5; i++ {
-				ctx, cancel := context.WithTimeout(context.Background(), 60*time.Second)
+				ctx, cancel := context.WithTimeout(context.Background(), 10*time.Second)
 				b, err := e.get(ctx, fmt.Sprintf("/ext/%d/%d", g, i))
 				cancel()
 				if err != nil || string(b) != fmt.Sprintf("ok:ext:%d:%d", g, i) {
@@ -648,15 +648,20 @@ func TestRun(t *testing.T) {
 				if i >= len(cases) {
 					return
 				}
-				if rec.NViolations() > 12 {
+				// every stalled case costs its full watchdogs: a handful of witnesses is enough
+				if rec.NViolations() > 3 {
 					rec.Count("cases_skipped_after_violations", 1)
 					continue
 				}
 				c := cases[i]
+				tc := time.Now()
 				if c.Workload == "pure-server" {
 					pureServer(rec, c, r)
 				} else {
 					nested(rec, c, r)
+				}
+				if d := time.Since(tc); d > 5*time.Second {
+					rec.Note(fmt.Sprintf("slow case %v: %+v", d.Round(time.Second), c))
 				}
 				rec.Eval(fmt.Sprintf("%+v", c))
 				rec.Count("cases_"+c.Workload+"_"+c.Kind, 1)
